@@ -158,7 +158,8 @@ IsDeferred(rt) == rt.r = "remove_nortree" \/ (rt.r = "add_extra" /\ rt.a[1] = 0)
 RECURSIVE PendingUpTo(_, _)
 PendingUpTo(routes, n) == IF n = 0 THEN {} ELSE
                           LET rt == routes[n] IN
-                          IF rt.r = "remove_nortree" THEN PendingUpTo(routes, n - 1) \cup {rt.a[1]}
+                          IF rt.r = "draw" THEN PendingUpTo(routes, n - 1)           \* drawing is read-only: nothing is rebuilt
+                          ELSE IF rt.r = "remove_nortree" THEN PendingUpTo(routes, n - 1) \cup {rt.a[1]}
                           ELSE IF IsDeferred(rt) THEN PendingUpTo(routes, n - 1) \cup {ExtraId}
                           ELSE {}                      \* every other route step rebuilds (or freshly builds) the index
 Pending(routes) == PendingUpTo(routes, Len(routes))
@@ -197,6 +198,15 @@ MoveShape(m, s) == CASE s.k = "rect" -> [s EXCEPT !.c = Move(m, @), !.rot = Move
                      [] s.k = "disc" -> [s EXCEPT !.c = Move(m, @)]
                      [] s.k = "poly" -> [s EXCEPT !.v = MoveRing(m, @)]
                      [] s.k = "group" -> [s EXCEPT !.ms = [i \in DOMAIN s.ms |-> MoveShape(m, s.ms[i])]]
+
+(* finer lattices: an event may give its points and polygons in units of 1/(2 k); the shapes (given in doubled coordinates) follow *)
+RECURSIVE ScaleShape(_, _)
+ScaleShape(s, k) == IF k = 1 THEN s ELSE
+                    CASE s.k = "rect" -> [s EXCEPT !.c = ScaleP(@, k), !.l = k * @, !.w = k * @]
+                      [] s.k = "disc" -> [s EXCEPT !.c = ScaleP(@, k), !.r = k * @]
+                      [] s.k = "poly" -> [s EXCEPT !.v = Scale(@, k)]
+                      [] s.k = "group" -> [s EXCEPT !.ms = [i \in DOMAIN s.ms |-> ScaleShape(s.ms[i], k)]]
+ScaleNet(net, k) == [j \in DOMAIN net |-> [id |-> net[j].id, v |-> Scale(net[j].v, k)]]
 
 (* ------------------------------ lanelet families on the 6 x 4 lattice (REAL integer coordinates) ------ *)
 D2(P)  == [i \in DOMAIN P |-> <<2 * P[i][1], 2 * P[i][2]>>]
